@@ -81,6 +81,24 @@ func registerK8sModels(e *Engine) {
 	fieldEscaper := strings.NewReplacer(`\`, `\\`, `,`, `\,`, `=`, `\=`)
 	e.native("k8s.io/apimachinery/pkg/fields.EscapeValue", func(s string) string { return fieldEscaper.Replace(s) })
 
+	// cache.WaitForCacheSync(stopCh, synced...): polls the given functions (up to pollTries rounds) instead of
+	// building a context from the stop channel
+	e.models["k8s.io/client-go/tools/cache.WaitForCacheSync"] = func(fr *frame, fn *ssa.Function, args []value) value {
+		fns, _ := args[1].([]value)
+		for i := 0; i < pollTries; i++ {
+			all := true
+			for _, f := range fns {
+				if !fr.concreteBool(call(fr.p, fr, token.NoPos, f, nil)) {
+					all = false
+				}
+			}
+			if all {
+				return true
+			}
+		}
+		return false
+	}
+
 	errPkg := "k8s.io/apimachinery/pkg/api/errors"
 	reasonOf := func(fr *frame, err iface) string {
 		for n := 0; n < 20 && err.t != nil; n++ {
